@@ -698,6 +698,15 @@ func c17FixedPairs(c *runner.Ctx, idx uint64) {
 		{"[M1 + M2][0].Cents", "[AddMoney(M1, M2)][0].Cents"},
 		{"{\"k\": M1 + M2}.k.Cents", "{\"k\": AddMoney(M1, M2)}.k.Cents"},
 	}
+	// the element of an outer closure used after a nested builtin that ranges
+	// over a collection of another element type
+	for _, inner := range []string{"count([A, S], {# != nil}) == 2", "any([A, S], {# == nil}) == false", "all([A, S], {# != nil})", "none([A, S], {# == nil})",
+		"one([A, S], {# == A})", "len(filter([A, S], {# != nil})) == 2", "len(map([A, S], {#})) == 2"} {
+		pairs = append(pairs,
+			[2]string{"count(Monies, {" + inner + " and # == M1})", "count(Monies, {" + inner + " and EqMoney(#, M1)})"},
+			[2]string{"map(Monies, {" + inner + " ? (# + M2).Cents : 0})", "map(Monies, {" + inner + " ? AddMoney(#, M2).Cents : 0})"},
+			[2]string{"any(Monies, {# < M2 and " + inner + " and # < M1})", "any(Monies, {LtMoney(#, M2) and " + inner + " and LtMoney(#, M1)})"})
+	}
 	sample := newOpEnv(runner.NewRng(1))
 	tb := c17Tables[0]
 	for _, pr := range pairs {
@@ -720,7 +729,7 @@ func c17FixedPairs(c *runner.Ctx, idx uint64) {
 			continue
 		}
 		c.Distinct("pair|" + pr[0])
-		for k := uint64(0); k < 3; k++ {
+		for k := uint64(0); k < 8; k++ {
 			e1, e2 := newOpEnv(runner.NewRng(c.Seed+k)), newOpEnv(runner.NewRng(c.Seed+k))
 			o1, o2 := SafeRun(p1, *e1), SafeRun(p2, *e2)
 			c.Eval(2)
